@@ -114,6 +114,11 @@ pub fn run(ctx: &mut Ctx) {
     conv_case(ctx, two_pi_c);
   }
 
+  // ---- conversions on ANY finite endpoints (negative, zero-crossing, mixed sign, hand-built sum/diff grids)
+  for _ in 0..ctx.n / 2 {
+    conv_any_case(ctx, two_pi_c);
+  }
+
   // ---- every API route to the same conversion / grid description
   for _ in 0..(ctx.n / 8).max(20) {
     routes_case(ctx);
@@ -737,6 +742,113 @@ fn all_pointwise(sp: &spdcalc::jsa::JointSpectrum, pts: &[(Frequency, Frequency)
 
 fn fbits(p: &[(Frequency, Frequency)]) -> Vec<(u64, u64)> {
   p.iter().map(|q| ((*(q.0 / (RAD / S))).to_bits(), (*(q.1 / (RAD / S))).to_bits())).collect()
+}
+
+/// a finite endpoint of either sign: zeros, small integers, frequency-like, wavelength-like, wide log range
+fn gen_signed(r: &mut Rng) -> f64 {
+  let sign = if r.coin() { 1.0 } else { -1.0 };
+  match r.below(8) {
+    0 => 0.0,
+    1 => -0.0,
+    2 => (r.below(21) as f64) - 10.0,
+    3 => sign * r.range(0.0, 10.0),
+    4 => sign * r.log_range(1e14, 1e16),
+    5 => sign * r.log_range(1e-9, 1e-5),
+    _ => sign * r.log_range(1e-6, 1e18),
+  }
+}
+
+/// The conversion clauses of the statement on grids that are not physical positive bands: "all endpoints
+/// (finite floats …)". Frequency ↔ sum/diff keeps centre and counts in both directions, the equal-span
+/// round trip is the identity; wavelength ↔ frequency maps endpoints to endpoints and round-trips for
+/// non-zero endpoints of either sign.
+fn conv_any_case(ctx: &mut Ctx, two_pi_c: f64) {
+  let nx = ctx.rng.between(0, 30);
+  let ny = ctx.rng.between(0, 30);
+  let close = |x: f64, y: f64, scale: f64| rel_close(x, y, 1e-12, scale);
+  let maxabs = |g: &Steps2D<f64>| g.0 .0.abs().max(g.0 .1.abs()).max(g.1 .0.abs()).max(g.1 .1.abs());
+  let show = |g: &Steps2D<f64>| format!("({:e},{:e},{})x({:e},{:e},{})", g.0 .0, g.0 .1, g.0 .2, g.1 .0, g.1 .1, g.1 .2);
+
+  // ---- (1) frequency grid with arbitrary endpoints → sum/diff: centre and counts
+  let mode = ctx.rng.below(4);
+  let (a, b, c, d) = match mode {
+    // zero-crossing / negative small grids such as (−2,6)×(1,9)
+    0 => {
+      let a = (ctx.rng.below(21) as f64) - 10.0;
+      let c = (ctx.rng.below(21) as f64) - 10.0;
+      let span = 1.0 + ctx.rng.below(12) as f64;
+      (a, a + span, c, c + span)
+    }
+    // equal spans, any sign and magnitude
+    1 => {
+      let a = gen_signed(&mut ctx.rng);
+      let c = gen_signed(&mut ctx.rng);
+      let span = gen_signed(&mut ctx.rng);
+      (a, a + span, c, c + span)
+    }
+    _ => (gen_signed(&mut ctx.rng), gen_signed(&mut ctx.rng), gen_signed(&mut ctx.rng), gen_signed(&mut ctx.rng)),
+  };
+  ctx.count(&format!("conv-any/{}", if a < 0.0 || c < 0.0 { "negative-lower-bound" } else { "non-negative" }));
+  let fs = FrequencySpace::new((a * RAD / S, b * RAD / S, nx), (c * RAD / S, d * RAD / S, ny));
+  let f = raw_f(fs.steps());
+  let sd = fs.as_sum_diff_space();
+  let sdr = raw_f(sd.steps());
+  ctx.k("to_sumdiff", &fmt_space(&f), &fmt_space(&sdr));
+  let back = raw_f(sd.as_frequency_space().steps());
+  ctx.k("from_sumdiff", &fmt_space(&sdr), &fmt_space(&back));
+  let scale = maxabs(&f);
+  let (cx, cy) = (0.5 * (a + b), 0.5 * (c + d));
+  let (sc, dc) = (0.5 * (sdr.0 .0 + sdr.0 .1), 0.5 * (sdr.1 .0 + sdr.1 .1));
+  let ok_c = close(sc - dc, cx, scale) && close(sc + dc, cy, scale) && sdr.0 .2 == nx && sdr.1 .2 == ny;
+  ctx.s("C14.conv", ok_c, "conv/sumdiff-centre", &format!("fs={} sd={}", show(&f), show(&sdr)));
+  // the way back keeps counts and the centre of each axis, whatever the spans
+  let ok_b = close(0.5 * (back.0 .0 + back.0 .1), cx, scale) && close(0.5 * (back.1 .0 + back.1 .1), cy, scale) && back.0 .2 == nx && back.1 .2 == ny;
+  ctx.s("C14.conv", ok_b, "conv/sumdiff-centre-back", &format!("fs={} back={}", show(&f), show(&back)));
+  // equal spans ⇒ identity (the spans as the floats have them)
+  if (b - a) == (d - c) {
+    let ok_rt = close(back.0 .0, a, scale) && close(back.0 .1, b, scale) && close(back.1 .0, c, scale) && close(back.1 .1, d, scale);
+    ctx.s("C14.conv", ok_rt, "conv/sumdiff-roundtrip-equal-span", &format!("fs={} back={}", show(&f), show(&back)));
+  }
+
+  // ---- (2) hand-built sum/diff grid, difference axis possibly much wider than the sum axis
+  let s0 = gen_signed(&mut ctx.rng);
+  let s1 = if ctx.rng.coin() { s0 * ctx.rng.range(1.0, 1.5) } else { gen_signed(&mut ctx.rng) };
+  let wide = s0.abs().max(s1.abs()).max(1.0) * ctx.rng.log_range(0.01, 100.0);
+  let (d0, d1) = match ctx.rng.below(3) {
+    0 => (-wide, wide),
+    1 => (-wide * ctx.rng.unit(), wide),
+    _ => (gen_signed(&mut ctx.rng), gen_signed(&mut ctx.rng)),
+  };
+  let sdh = SumDiffFrequencySpace::new((s0 * RAD / S, s1 * RAD / S, nx), (d0 * RAD / S, d1 * RAD / S, ny));
+  let sh = raw_f(sdh.steps());
+  let fh = raw_f(sdh.as_frequency_space().steps());
+  ctx.k("from_sumdiff", &fmt_space(&sh), &fmt_space(&fh));
+  let scale = maxabs(&sh);
+  let (sc, dc) = (0.5 * (s0 + s1), 0.5 * (d0 + d1));
+  let ok_h = close(0.5 * (fh.0 .0 + fh.0 .1), sc - dc, scale) && close(0.5 * (fh.1 .0 + fh.1 .1), sc + dc, scale) && fh.0 .2 == nx && fh.1 .2 == ny;
+  ctx.count(&format!("conv-any/handbuilt/{}", if fh.0 .0 < 0.0 || fh.1 .0 < 0.0 || sc - dc - 0.5 * (s1 - s0).abs() - 0.5 * (d1 - d0).abs() < 0.0 { "reaches-negative" } else { "positive" }));
+  ctx.s("C14.conv", ok_h, "conv/sumdiff-centre-handbuilt", &format!("sd={} fs={}", show(&sh), show(&fh)));
+
+  // ---- (3) wavelength ↔ frequency for non-zero endpoints of either sign
+  let mut e = [gen_signed(&mut ctx.rng), gen_signed(&mut ctx.rng), gen_signed(&mut ctx.rng), gen_signed(&mut ctx.rng)];
+  for x in e.iter_mut() {
+    if *x == 0.0 {
+      *x = -3.0;
+    }
+  }
+  let ws = WavelengthSpace::new((e[0] * M, e[1] * M, nx), (e[2] * M, e[3] * M, ny));
+  let w = raw_l(ws.steps());
+  let fw = raw_f(ws.as_frequency_space().steps());
+  ctx.k("conv_recip", &format!("{} {}", fl(two_pi_c), fmt_space(&w)), &fmt_space(&fw));
+  let rc = |x: f64| two_pi_c / x;
+  let ok_e = rel_close(fw.0 .0, rc(e[1]), 1e-14, rc(e[1]).abs()) && rel_close(fw.0 .1, rc(e[0]), 1e-14, rc(e[0]).abs())
+    && rel_close(fw.1 .0, rc(e[3]), 1e-14, rc(e[3]).abs()) && rel_close(fw.1 .1, rc(e[2]), 1e-14, rc(e[2]).abs())
+    && fw.0 .2 == nx && fw.1 .2 == ny;
+  ctx.s("C14.conv", ok_e, "conv/wl-freq-endpoints", &format!("ws={} fs={}", show(&w), show(&fw)));
+  let wb = raw_l(ws.as_frequency_space().as_wavelength_space().steps());
+  let ok_r = rel_close(wb.0 .0, e[0], 1e-12, e[0].abs()) && rel_close(wb.0 .1, e[1], 1e-12, e[1].abs())
+    && rel_close(wb.1 .0, e[2], 1e-12, e[2].abs()) && rel_close(wb.1 .1, e[3], 1e-12, e[3].abs()) && wb.0 .2 == nx && wb.1 .2 == ny;
+  ctx.s("C14.conv", ok_r, "conv/wl-freq-roundtrip", &format!("ws={} back={}", show(&w), show(&wb)));
 }
 
 fn range_eval(ctx: &mut Ctx) {
